@@ -94,24 +94,37 @@ pub fn huge(ctx: &Ctx) -> Frag {
             }
         }};
     }
-    let props_bytes = matches!(ctx.prop.as_str(), "C01" | "C02" | "C07" | "C06" | "C14" | "C09");
-    let props_sub = matches!(ctx.prop.as_str(), "C03" | "C04" | "C08" | "C10" | "C14" | "C09" | "C13");
-    if props_bytes {
+    // each property judges only the operations it is about; C14 / C09 run everything
+    let p = ctx.prop.as_str();
+    let all = matches!(p, "C14" | "C09" | "C05");
+    if all || p == "C01" {
         run!("memchr", memchr::memchr(7, &hay[18..]), Some(4 * GIB + 5 - 18));
-        run!("memrchr", memchr::memrchr(7, &hay[..4 * GIB + 5]), Some(17usize));
-        run!("memrchr(last)", memchr::memrchr(7, hay), Some(4 * GIB + 5));
         run!("memchr2", memchr::memchr2(b'Z', 7, &hay[18..]), Some(false_cand + 39 - 18));
         run!("memchr3", memchr::memchr3(b'Z', b'e', 9, &hay[18..3 * GIB]), None::<usize>);
+    }
+    if all || p == "C02" {
+        run!("memrchr", memchr::memrchr(7, &hay[..4 * GIB + 5]), Some(17usize));
+        run!("memrchr(last)", memchr::memrchr(7, hay), Some(4 * GIB + 5));
+        run!("memrchr2", memchr::memrchr2(b'Q', 7, &hay[..false_cand + 39]), Some(false_cand + 38));
+    }
+    if all || p == "C07" {
         run!("memchr_iter.count (zero bytes)", memchr::memchr_iter(0, hay).count(), len - 2 - 2 - 80);
+    }
+    if all || p == "C06" {
         run!("memchr_iter.next_back + next", {
             let mut it = memchr::memchr_iter(7, hay);
             (it.next_back(), it.next(), it.next())
         }, (Some(4 * GIB + 5), Some(17usize), None::<usize>));
     }
-    if props_sub {
+    if all || p == "C03" {
         run!("memmem::find", memchr::memmem::find(hay, &needle), Some(real));
         run!("Finder::find (Prefilter::None)", memchr::memmem::FinderBuilder::new().prefilter(memchr::memmem::Prefilter::None).build_forward(&needle).find(&hay[2 * GIB..]), Some(real - 2 * GIB));
+        run!("find (2-byte needle, vector searcher)", memchr::memmem::find(hay, b"QZ"), Some(false_cand + 38));
+    }
+    if all || p == "C04" {
         run!("memmem::rfind", memchr::memmem::rfind(&hay[..real2], &needle), Some(real));
+    }
+    if all || p == "C08" {
         run!("find_iter", memchr::memmem::find_iter(hay, &needle).collect::<Vec<_>>(), vec![real, real2]);
         run!("find_iter.size_hint", {
             let it = memchr::memmem::find_iter(hay, &needle);
@@ -119,7 +132,6 @@ pub fn huge(ctx: &Ctx) -> Frag {
             lo <= 2 && hi.map_or(true, |h| h >= 2)
         }, true);
         run!("rfind_iter", memchr::memmem::rfind_iter(hay, &needle).collect::<Vec<_>>(), vec![real2, real]);
-        run!("find (2-byte needle, vector searcher)", memchr::memmem::find(hay, b"QZ"), Some(false_cand + 38));
         run!("find_iter (empty needle, first items)", memchr::memmem::find_iter(&hay[..4 * GIB + 10], b"").skip(4 * GIB).take(3).collect::<Vec<_>>(), vec![4 * GIB, 4 * GIB + 1, 4 * GIB + 2]);
     }
     frag.sample(json!({"stage":"huge","haystack":"4 GiB + 64 KiB zero bytes; 0x07 at 17 and 4GiB+5; 'QZ' (the needle's rare pair) at 3GiB+12383; the 40-byte needle e^38 Q Z at 4GiB+1000 and 4GiB+3000",
